@@ -10,7 +10,10 @@ EXTENDS Container, Json
 CONSTANTS MaxHist
 
 LongStr == <<"str", <<108,111,110,103,45,115,116,114,105,110,103,45,48,49,50,51,52,53,54,55,56,57>>>>   \* "long-string-0123456789": beyond the short-string capacity
-MCLits == { <<"null">>, <<"bool", TRUE>>, <<"int", 1>>, <<"str", <<115>>>>, LongStr, <<"obj", <<>>>>, <<"arr", <<>>>> }
+\* (two one-member object literals with a small and a great key, and a one-element array, bring object / array operations on
+\* non-empty containers within reach of short histories)
+MCLits == { <<"null">>, <<"bool", TRUE>>, <<"int", 1>>, <<"str", <<115>>>>, LongStr, <<"obj", <<>>>>, <<"arr", <<>>>>,
+            <<"obj", << <<<<97>>, <<"int", 1>>>> >>>>, <<"obj", << <<<<99>>, <<"null">>>> >>>>, <<"arr", << <<"int", 1>> >>>> }
 MCKeys == { <<97>>, <<98>>, <<99>> }
 
 View == slot
